@@ -38,12 +38,17 @@ ASSUMPTIONS = ['RecursionError / MemoryError on pathologically deep or large val
                'parts are deterministic in VERIF_SEED']
 
 _parser = None
+_cached = None
 
 
-def parser():
-    global _parser
+def parser(cached=False):
+    global _parser, _cached
+    from smartquery import SqParser
+    if cached:
+        if _cached is None or len(_cached.parse_cache) > 5000:
+            _cached = SqParser(parse_cache={})
+        return _cached
     if _parser is None:
-        from smartquery import SqParser
         _parser = SqParser()
     return _parser
 
@@ -78,8 +83,9 @@ def innermost_frame(e):
 def judge_text(text, case=None, stats=None):
     """-> (failures, info) for one arbitrary string"""
     from smartquery import ParserError
-    p = parser()
-    case = case or {'kind': 'text', 'text': text}
+    use_cache = bool(case and case.get('cached')) or (len(text) % 3 == 0 and case is None)
+    p = parser(use_cache)
+    case = case or {'kind': 'text', 'text': text, 'cached': use_cache}
     fails = []
     cls_all, ntok = classify(text)
     cls_eval, _ = classify(text.rstrip())
@@ -278,7 +284,7 @@ def run_case(case):
 
 
 # ------------------------------------------------------------------------------------------------ generators
-ATOMS = ['&', '&&', 'a &', 'a', 'b1', 'r', 'not', 'in', 'and', 'True', 'del', 'for', 'if', 'else', 'é', '²', '%a b%', '%', '"s"', "'t'", 'r"\\d"', '"', "'",
+ATOMS = ['\ud800', 'x = 1 + \udc00', '"\udfff"', '&', '&&', 'a &', 'a', 'b1', 'r', 'not', 'in', 'and', 'True', 'del', 'for', 'if', 'else', 'é', '²', '%a b%', '%', '"s"', "'t'", 'r"\\d"', '"', "'",
          '"abc', 'r"', '"\\', '\\', '1', '12.5', '1.', '.5', '+', '-', '*', '**', '/', '=', '==', '!=', '!', '<', '>=', '=>', '+=', '|', '.',
          ',', ':', '(', ')', '[', ']', '{', '}', ';', '\n', '\r\n', '\r', ' ', '\t', '#c', '# x\n', '$', '?', '@', '\x0c', '\xa0', '\x00',
          'x = ', 'f(', 'x[', '{"k": ', 'v => ', 'x += ', 'x.push(', ' if ', ' else ', 'while', 'def ', 'u /= 2', 'q | pop', '[][0]', '{}["k"]']
@@ -290,9 +296,10 @@ def text_cases(draw):
     pick = lambda xs: xs[n(len(xs))]  # noqa
     r = n(10)
     if r < 2:
-        return {'kind': 'text', 'family': 'unicode', 'text': draw(hst.text(max_size=40))}
+        return {'kind': 'text', 'family': 'unicode', 'cached': bool(n(2)),
+                'text': draw(hst.text(alphabet=hst.characters(codec=None) if n(3) == 0 else hst.characters(), max_size=40))}
     if r < 5:
-        return {'kind': 'text', 'family': 'atoms', 'text': ''.join(pick(ATOMS) for _ in range(1 + n(9)))}
+        return {'kind': 'text', 'family': 'atoms', 'cached': bool(n(2)), 'text': ''.join(pick(ATOMS) for _ in range(1 + n(9)))}
     if n(3) == 0:
         stmts, _e, _l = draw(typed.programs(max_stmts=2, max_depth=2))
     else:
